@@ -606,6 +606,31 @@ def run_siblings(ctx):
                   deep_state(C), mechanism="built-fresh:" + name)
         ctx.case(("built-sibling", name))
 
+    # a chord that from_chords has to split across a bar line: the two pieces live in two bars and are two objects
+    for (meter, pre, chords_, d) in (((3, 4), [], ["C"], 1), ((4, 4), [2], ["Am"], 1), ((4, 4), [4, 4, 4], [["F", "G7"]], 1), ((6, 8), [8], ["Dm7", "G"], 2)):
+        t = Track()
+        t.add_bar(Bar("C", meter))
+        for v in pre:
+            t.add_notes("E", v)
+        st, r = ctx.call(t.from_chords, chords_, d)
+        w = {"meter": meter, "track_already_holds": pre, "chords": chords_, "duration": d}
+        if st != "ok":
+            ctx.unsure("from_chords failed: %r" % (r,))
+            continue
+        conts = [e[2] for b in t.bars for e in b.bar if e[2] is not None]
+        ctx.check("siblings: operating on one object leaves a separately created object unchanged", len(set(id(x) for x in conts)) == len(conts), w,
+                  "one container object per entry", "%d entries, %d objects" % (len(conts), len(set(id(x) for x in conts))),
+                  mechanism="from_chords:split-shares-container")
+        if len(t.bars) >= 2:
+            before = deep_state(t.bars[1])
+            t.bars[0].transpose("3"), t.bars[0].augment()
+            for e in t.bars[0].bar:
+                if e[2] is not None:
+                    e[2].add_note("B", 7)
+            ctx.check("siblings: operating on one object leaves a separately created object unchanged", deep_state(t.bars[1]) == before, w,
+                      before, deep_state(t.bars[1]), mechanism="from_chords:bar-follows-its-neighbour")
+        ctx.case(("from-chords-split", meter, repr(chords_)))
+
     def comp_from_chords():
         c = Composition()
         c.add_track(Track().from_chords(["F", "Dm7"], 1))
@@ -843,6 +868,22 @@ def run_lookups(ctx, shard):
                   mechanism="lookup-model")
         ctx.case(("lookup", tuple(hist)))
         ctx.state(tuple(warm))
+    # the notes handed out with a lookup result belong to the caller: changing them changes no later result
+    realfft = sys.modules["mingus.extra.fft"]
+    table_in = [(440.0, 1.0), (261.63, 0.5), (30000.0, 0.1), (table[60], 2.0), (55.0, 0.25)]
+    st, first = ctx.call(realfft.find_notes, list(table_in))
+    if st == "ok":
+        snap = [(None if n is None else (n.name, n.octave), a) for (n, a) in first]
+        for (n, _a) in first:
+            if n is not None:
+                n.transpose("3"), n.octave_up(), n.set_velocity(1)
+        first.reverse()
+        st, again = ctx.call(realfft.find_notes, list(table_in))
+        got = [(None if n is None else (n.name, n.octave), a) for (n, a) in again] if st == "ok" else repr(again)
+        ctx.check("lookup: the index for a frequency is the same whatever was looked up before", got == snap, {"call": "find_notes twice, the first "
+                  "result's notes changed in between"}, snap[55:62], got[55:62] if isinstance(got, list) else got, mechanism="find_notes-aliases-cache")
+        st, third = ctx.call(realfft.find_notes, list(table_in), 50)
+        ctx.case(("find_notes-twice",))
     # cross-check the in-process notion of 'cold' against truly cold (forked) interpreters
     probes = [pick() for _ in range(40)]
 
